@@ -482,7 +482,7 @@ pub fn emit_read_case(rng: &mut Rng, out: &mut Out, id: &str, plan: &Plan, kind:
     } else if plan.layers == L_ENC && cfg!(feature = "scaled") {
         ("hist_enc", vec![jbytes(&built.key), jbytes(&built.nonce), jbytes(body), json!(plan.names), json!(ops)])
     } else {
-        ("", vec![])
+        crate::histstack::model_call(plan, &built, &privs[0], &ops, 6000)
     };
     out.case(&Case {
         id: id.into(),
